@@ -136,8 +136,6 @@ Fixpoint run (threshold : N) (cs : caches) (ops : list op) : caches * list respo
       (cs'', match r with Some x => x :: rs | None => rs end)
   end.
 
-(* SyncAssetTransfer::request: the download is started unless the *mesh* cache of the
-   requesting peer already holds the id, whatever the class requested (source line: the
-   guard reads `self.meshes`). *)
-Definition request_starts_download (cs : caches) (k : class) (id : nibbles) : bool :=
-  match lookup (c_mesh cs) id with Some _ => false | None => true end.
+(* SyncAssetTransfer::request: the download is always started (the early return when this
+   peer's *mesh* cache held the id — defect S12 — was removed by the repair 19e1d6e). *)
+Definition request_starts_download (cs : caches) (k : class) (id : nibbles) : bool := true.
